@@ -230,4 +230,19 @@ var seeds = []seed{
 		Old: "k.bankKeeper.SendCoinsFromModuleToModule(ctx, types.ModuleName, k.feeCollectorName, vestedCoins)", New: "k.bankKeeper.SendCoinsFromModuleToModule(ctx, types.ModuleName, types.ModuleName, vestedCoins)"},
 	{Prop: "C20", Name: "vesting runs although disabled", File: fRvAbci, Expect: "C20/",
 		Old: "\tif !params.EnableVesting {\n\t\treturn\n\t}\n", New: ""},
+	// negative controls: behaviour-preserving edits must stay silent
+	{Prop: "C04", Neg: true, Name: "neg: !(next == seq) instead of seq != next", File: fPacket,
+		Old: "if packet.GetSequence() != nextSequenceSend {", New: "if !(nextSequenceSend == packet.GetSequence()) {"},
+	{Prop: "C01", Neg: true, Name: "neg: receipt lookup result held in a named local", File: fPacket,
+		Old: "\tif _, found := k.GetPacketReceipt(ctx, packet.GetSrcChain(), packet.GetDstChain(), packet.GetSequence()); found {", New: "\t_, alreadyReceived := k.GetPacketReceipt(ctx, packet.GetSrcChain(), packet.GetDstChain(), packet.GetSequence())\n\tif alreadyReceived {"},
+	{Prop: "C07", Neg: true, Name: "neg: !GT instead of LTE", File: fTmUpd,
+		Old: "if header.GetHeight().LTE(header.TrustedHeight) {", New: "if !header.GetHeight().GT(header.TrustedHeight) {"},
+	{Prop: "C07", Neg: true, Name: "neg: delay comparison with swapped operands", File: fTmCS,
+		Old: "if validTime > currentTimestamp {", New: "if currentTimestamp < validTime {"},
+	{Prop: "C20", Neg: true, Name: "neg: reward.GT(remaining) instead of remaining.LT(reward)", File: fRvAbci,
+		Old: "if remainingCoin.Amount.LT(reward.Amount) {", New: "if reward.Amount.GT(remainingCoin.Amount) {"},
+	{Prop: "C09", Neg: true, Name: "neg: recent window comparison with swapped operands", File: fBscHdr,
+		Old: "seen > number-limit {", New: "number-limit < seen {"},
+	{Prop: "C02", Neg: true, Name: "neg: error message of the commitment mismatch changed", File: fPacket,
+		Old: "\"commitment bytes are not equal: got (%v), expected (%v)\",", New: "\"stored commitment differs from the recomputed one: %v vs %v\","},
 }
